@@ -588,7 +588,7 @@ class MSTDPET(IndependentCellTrainer):
                 dpre = state.batchreduce(z_pre, 0) * abs(signal * scale)
 
                 # accumulate partials with mode condition
-                match (state.lr_post * signal >= 0, state.lr_pre * signal >= 0):
+                match (bool(state.lr_post * signal >= 0), bool(state.lr_pre * signal >= 0)):
                     case (False, False):  # depressive
                         cell.updater.weight = (None, dpost + dpre)
                     case (False, True):  # anti-hebbian
@@ -1048,7 +1048,7 @@ class MSTDP(IndependentCellTrainer):
                 dpre = state.batchreduce(dpre, 0) * abs(signal * scale)
 
                 # accumulate partials with mode condition
-                match (state.lr_post * signal >= 0, state.lr_pre * signal >= 0):
+                match (bool(state.lr_post * signal >= 0), bool(state.lr_pre * signal >= 0)):
                     case (False, False):  # depressive
                         cell.updater.weight = (None, dpost + dpre)
                     case (False, True):  # anti-hebbian
